@@ -23,7 +23,7 @@ func init() {
 	lib.Register(&c17{base{
 		id: "C17", level: "exploration",
 		technique: "runtime structural oracle on results: (a) on generated pairs x root paths, the error value of AgainstSchema and the Result of a validator object are inspected online (nil/422 composite, message sets equal, no duplicates, every *errors.Validation named by an extension of the root by names/indices of the instance); (b) single-fault differential: one violation is planted at a known location reached through properties/patternProperties/additionalProperties/tuple items and the monitor demands a field-level error named exactly root.<path>",
-		rule: "even cases: C01's pair generator with a root path drawn from {\"\",body,a.b,ünï,root}; odd cases: a permissive schema/instance skeleton of depth 1-5 built along a random path of property / pattern-property / additional-property / tuple-item steps with exactly one planted fault of 8 kinds at the leaf; distinct = FNV-64 of schema+instance+root; non-trivial = the verdict is invalid (there is something to explain)",
+		rule: "even cases: C01's pair generator with a root path drawn from {\"\",body,a.b,ünï,root}; odd cases: a permissive schema/instance skeleton of depth 1-5 built along a random path of property / pattern-property / additional-property / tuple-item steps with exactly one planted fault of 15 kinds at the leaf; numbers of the instance travel as float64 or (json.Number decoding) as Go integers; distinct = FNV-64 of schema+instance+root; non-trivial = the verdict is invalid (there is something to explain)",
 		assumptions: []string{
 			"location accuracy is demanded only for nesting through properties, patternProperties, additionalProperties and tuple items with member names free of dots, as the property states; property-not-allowed errors (named by their parent object) are not planted",
 			"with an empty root path both \"a.b\" and \".a.b\" are accepted as names of member a.b (the library mixes both spellings; the property does not choose)",
@@ -178,27 +178,53 @@ func (p *c17) generic(idx int, r *lib.Rand) lib.Case {
 	nameTokens(instV, names, &maxLen)
 	nameTokens(schV, names, &maxLen)
 	nval := 0
-	for _, e := range res.Errors {
-		ve, ok := e.(*oaerrors.Validation)
-		if !ok {
-			continue
+	checkNames := func(res *validate.Result, carrier string, msgs []string) *lib.Case {
+		for _, e := range res.Errors {
+			ve, ok := e.(*oaerrors.Validation)
+			if !ok {
+				continue
+			}
+			nval++
+			name := ve.Name
+			var rest string
+			switch {
+			case name == root:
+				continue
+			case root == "":
+				rest = strings.TrimPrefix(name, ".")
+			case strings.HasPrefix(name, root+"."):
+				rest = name[len(root)+1:]
+			default:
+				f := fail(fmt.Sprintf("field-level error named %q is not the root path %q nor an extension of it (%s numbers): %s", name, root, carrier, e.Error()), msgs)
+				return &f
+			}
+			if !segmentable(rest, names, maxLen) {
+				f := fail(fmt.Sprintf("field-level error name %q extends the root by something which is neither a member name nor an index of the instance (%s numbers): %s", name, carrier, e.Error()), msgs)
+				return &f
+			}
 		}
-		nval++
-		name := ve.Name
-		var rest string
-		switch {
-		case name == root:
-			continue
-		case root == "":
-			rest = strings.TrimPrefix(name, ".")
-		case strings.HasPrefix(name, root+"."):
-			rest = name[len(root)+1:]
-		default:
-			return fail(fmt.Sprintf("field-level error named %q is not the root path %q nor an extension of it: %s", name, root, e.Error()), o3.Errors)
-		}
-		if !segmentable(rest, names, maxLen) {
-			return fail(fmt.Sprintf("field-level error name %q extends the root by something which is neither a member name nor an index of the instance: %s", name, e.Error()), o3.Errors)
-		}
+		return nil
+	}
+	if f := checkNames(res, "float64", o3.Errors); f != nil {
+		return *f
+	}
+	// (3) the same instance decoded with json.Number (integers then travel as Go integers): same structural demands
+	var resN *validate.Result
+	o4 := sut.Guard(func() sut.Outcome {
+		s, _ := sut.Schema(st)
+		v, _ := decodeNumber(it)
+		resN = validate.NewSchemaValidator(s, nil, root, strfmt.Default).Validate(v)
+		return sut.FromResult(resN)
+	})
+	if o4.Panic != "" {
+		return fail("panic (json.Number instance): "+o4.Panic, nil)
+	}
+	c.Evals++
+	if resN.IsValid() != (len(resN.Errors) == 0) || resN.HasErrors() == resN.IsValid() {
+		return fail("validity is not the absence of errors (json.Number instance)", o4)
+	}
+	if f := checkNames(resN, "json.Number", o4.Errors); f != nil {
+		return *f
 	}
 	c.Nums = map[string]int64{"field_level_errors_checked": int64(nval)}
 	if idx%50000 == 0 {
@@ -208,7 +234,8 @@ func (p *c17) generic(idx int, r *lib.Rand) lib.Case {
 	return c
 }
 
-var c17Faults = []string{"type", "maximum", "minLength", "enum", "pattern", "required", "maxItems", "minimum-exclusive"}
+var c17Faults = []string{"type", "maximum", "minLength", "enum", "pattern", "required", "maxItems", "minimum-exclusive",
+	"multipleOf-fraction", "multipleOf-integer", "maximum-integer", "uniqueItems", "minProperties", "maxLength", "format"}
 
 func (p *c17) singleFault(idx int, r *lib.Rand) lib.Case {
 	root := c17Roots[r.Intn(len(c17Roots))]
@@ -247,6 +274,20 @@ func (p *c17) singleFault(idx int, r *lib.Rand) lib.Case {
 		leafSchema, leafVal = map[string]any{"type": "string", "pattern": "^a"}, "b"
 	case "maxItems":
 		leafSchema, leafVal = map[string]any{"type": "array", "maxItems": gen.I(1)}, []any{gen.I(1), gen.I(2)}
+	case "multipleOf-fraction":
+		leafSchema, leafVal = map[string]any{"type": r.Pick("integer", "number"), "multipleOf": gen.N("2.5")}, gen.I(7)
+	case "multipleOf-integer":
+		leafSchema, leafVal = map[string]any{"type": r.Pick("integer", "number"), "multipleOf": gen.I(3)}, gen.I(7)
+	case "maximum-integer":
+		leafSchema, leafVal = map[string]any{"type": "integer", "maximum": gen.N("6.5"), "exclusiveMaximum": r.Bool()}, gen.I(7)
+	case "uniqueItems":
+		leafSchema, leafVal = map[string]any{"type": "array", "uniqueItems": true}, []any{gen.I(1), "a", gen.I(1)}
+	case "minProperties":
+		leafSchema, leafVal = map[string]any{"type": "object", "minProperties": gen.I(2)}, map[string]any{"only": gen.I(1)}
+	case "maxLength":
+		leafSchema, leafVal = map[string]any{"type": "string", "maxLength": gen.I(2)}, "ééé"
+	case "format":
+		leafSchema, leafVal = map[string]any{"type": "string", "format": "date"}, "not-a-date"
 	case "required":
 		missing = "must"
 		leafSchema, leafVal = map[string]any{"type": "object", "required": []any{missing}}, map[string]any{"other": gen.I(1)}
@@ -313,14 +354,24 @@ func (p *c17) singleFault(idx int, r *lib.Rand) lib.Case {
 		c.Inconclusive = "construction error: planted fault is not a fault for the reference model"
 		return c
 	}
+	carrier := "float64"
+	if r.P(0.4) {
+		carrier = "json.Number" // integers then travel as Go integers
+	}
+	c.Tags = append(c.Tags, "carrier:"+carrier)
 	var res *validate.Result
 	o := sut.Guard(func() sut.Outcome {
 		s, _ := sut.Schema(st)
-		v, _ := sut.Value(it)
+		var v any
+		if carrier == "json.Number" {
+			v, _ = decodeNumber(it)
+		} else {
+			v, _ = sut.Value(it)
+		}
 		res = validate.NewSchemaValidator(s, nil, root, strfmt.Default).Validate(v)
 		return sut.FromResult(res)
 	})
-	sample := map[string]any{"schema": string(st), "instance": string(it), "root": root, "planted": fault, "expected_name": want, "outcome": o}
+	sample := map[string]any{"schema": string(st), "instance": string(it), "root": root, "planted": fault, "expected_name": want, "outcome": o, "number_carrier": carrier}
 	if o.Panic != "" {
 		c.Viol = &lib.Violation{What: "panic: " + o.Panic, Detail: sample}
 		return c
